@@ -1,7 +1,14 @@
 package props
 
 import (
+	"bytes"
+	"encoding/json"
 	"fmt"
+	"net/http"
+	"sort"
+	"time"
+
+	"verifharness/inproc"
 
 	"verifharness/client"
 	"verifharness/core"
@@ -18,7 +25,7 @@ func init() {
 }
 
 func runC15(r *core.Run) {
-	r.Rule("seeded histories (swaps, mints, failed / pending / later-resolved melts, internal settlement, P2PK spends with witness, rotations, restarts); after every operation one ProofsStateCheck and one RestoreSignatures query mixing known (every state), unknown, repeated and malformed entries in PRNG order is compared entry by entry with the reference model; non-trivial = distinct (history, operation index) queries that contained at least one SPENT or PENDING Y or one signed B_")
+	r.Rule("seeded histories (swaps, mints, failed / pending / later-resolved melts, internal settlement, P2PK spends with witness, rotations, restarts); after every operation one ProofsStateCheck and one RestoreSignatures query mixing known (every state), unknown, repeated and malformed entries in PRNG order is compared entry by entry with the reference model; every 20 operations a byte-identical /v1/restore and /v1/checkstate request is sent over HTTP before and after the messages are signed / the proof is spent and the second answer must reflect the change; non-trivial = distinct (history, operation index) queries that contained at least one SPENT or PENDING Y or one signed B_")
 	r.Assume("known Ys / B_s are queried in lower-case compressed form; empty queries are C06's subject")
 	nh, nops := pick(r, 6, 50), pick(r, 100, 300)
 	core.Parallel(nh, 8, func(h int) {
@@ -43,10 +50,92 @@ func runC15(r *core.Run) {
 		}
 		for i := 0; i < nops && r.Violations() < 10; i++ {
 			s.RandomOp(cfg)
+			if i%20 == 10 {
+				c15Freshness(r, s, fmt.Sprintf("%s/fresh%d", sig, i))
+			}
 		}
 		r.Count("operations", int64(s.NOps))
 		r.Sample("history", map[string]any{"history": sig, "summary": s.Summary()})
 	})
+}
+
+// c15Freshness asks the same question twice over HTTP, byte for byte, with a state change
+// in between: the second answer must reflect the change (restore: messages signed in the
+// meantime; state check: a proof spent in the meantime).
+func c15Freshness(r *core.Run, s *sim.Sim, csig string) {
+	if !r.Want(csig) {
+		return
+	}
+	rng := r.Rng(csig)
+	env := s.E
+	act := env.Active()
+	post := func(path string, body []byte) (int, []byte) {
+		req, _ := http.NewRequest("POST", "http://mint"+path, bytes.NewReader(body))
+		req.Header.Set("Content-Type", "application/json")
+		st, _, b, p, hang := inproc.Serve(env.Handler(), req, 60*time.Second)
+		if p != "" || hang {
+			r.Violate("freshness:handler-died:"+path, fmt.Sprintf("panic=%q hang=%v", p, hang), csig, nil)
+		}
+		return st, b
+	}
+	// restore: [never signed, to be signed, to be signed, never signed]
+	outs := client.Outputs(rng, act.Id, []uint64{2, 4})
+	q := cashu.BlindedMessages{client.NewOutput(rng, act.Id, 1, "").BM(), outs[0].BM(), outs[1].BM(), client.NewOutput(rng, act.Id, 8, "").BM()}
+	body, _ := json.Marshal(map[string]any{"outputs": q})
+	type restoreResp struct {
+		Outputs    cashu.BlindedMessages   `json:"outputs"`
+		Signatures cashu.BlindedSignatures `json:"signatures"`
+	}
+	var before, after restoreResp
+	st1, b1 := post("/v1/restore", body)
+	json.Unmarshal(b1, &before)
+	if _, err := env.FundOutputs(outs); err != nil {
+		r.Inconclusive("freshness: cannot mint: " + err.Error())
+		return
+	}
+	st2, b2 := post("/v1/restore", body)
+	json.Unmarshal(b2, &after)
+	r.Eval(csig+"/restore", true)
+	if st1 != 200 || st2 != 200 {
+		r.Violate("freshness:restore-status", fmt.Sprintf("restore answered %d then %d", st1, st2), csig, nil)
+	} else {
+		if len(before.Outputs) != 0 || len(before.Signatures) != 0 {
+			r.Violate("freshness:restore-before-signing", fmt.Sprintf("restore returned %d outputs for messages never signed", len(before.Outputs)), csig, nil)
+		}
+		if len(after.Outputs) != 2 || len(after.Signatures) != 2 || after.Outputs[0].B_ != q[1].B_ || after.Outputs[1].B_ != q[2].B_ ||
+			after.Signatures[0].Amount != 2 || after.Signatures[1].Amount != 4 {
+			r.Violate("freshness:restore-after-signing", fmt.Sprintf("the repeated restore request returned %d outputs / %d signatures; the mint has signed 2 of the 4 messages since the first request", len(after.Outputs), len(after.Signatures)), csig, map[string]any{"request": string(body), "first": string(b1), "second": string(b2)})
+		}
+	}
+	// state check: unspent, then spent
+	coin, err := env.FundOutputs(client.Outputs(rng, act.Id, []uint64{8}))
+	if err != nil {
+		r.Inconclusive("freshness: cannot mint: " + err.Error())
+		return
+	}
+	y := refcrypto.YHex(coin[0].Secret)
+	cbody, _ := json.Marshal(map[string]any{"Ys": []string{y}})
+	type stateResp struct {
+		States []struct {
+			Y     string `json:"Y"`
+			State string `json:"state"`
+		} `json:"states"`
+	}
+	var s1, s2 stateResp
+	c1, cb1 := post("/v1/checkstate", cbody)
+	json.Unmarshal(cb1, &s1)
+	if _, err := env.Swap(coin, client.BMs(client.Outputs(rng, env.Active().Id, client.Split(8-client.FeeFor(coin, env.Keysets))))); err != nil {
+		r.Inconclusive("freshness: cannot swap: " + err.Error())
+		return
+	}
+	c2, cb2 := post("/v1/checkstate", cbody)
+	json.Unmarshal(cb2, &s2)
+	r.Eval(csig+"/checkstate", true)
+	if c1 != 200 || c2 != 200 || len(s1.States) != 1 || len(s2.States) != 1 {
+		r.Violate("freshness:checkstate-shape", fmt.Sprintf("status %d / %d, %d / %d entries", c1, c2, len(s1.States), len(s2.States)), csig, nil)
+	} else if s1.States[0].State != "UNSPENT" || s2.States[0].State != "SPENT" {
+		r.Violate("freshness:checkstate:"+s1.States[0].State+"-then-"+s2.States[0].State, "the same state check before and after the proof was swapped answered "+s1.States[0].State+" then "+s2.States[0].State, csig, map[string]any{"first": string(cb1), "second": string(cb2)})
+	}
 }
 
 func c15Query(r *core.Run, s *sim.Sim, sig string) {
@@ -63,7 +152,13 @@ func c15Query(r *core.Run, s *sim.Sim, sig string) {
 	for _, c := range s.Coins {
 		byState[c.State] = append(byState[c.State], c)
 	}
-	for st, cs := range byState {
+	var states []sim.CoinState
+	for st := range byState {
+		states = append(states, st)
+	}
+	sort.Slice(states, func(i, j int) bool { return states[i] < states[j] })
+	for _, st := range states {
+		cs := byState[st]
 		n := 1 + rng.Intn(4)
 		for i := 0; i < n && len(cs) > 0; i++ {
 			c := cs[rng.Intn(len(cs))]
